@@ -22,3 +22,4 @@ def check(A):
         C.loop_condition_rule(A, cf, 'C08')
         C.write_loop_sentinel_rule(A, cf, 'C08')
         C.client_factory_rule(A, cf, 'C08')
+        C.http_session_rule(A, cf, 'C08')
